@@ -1046,7 +1046,9 @@ def c14(sc, V, counters=None):
             pr = op[1].get("properties")
             if isinstance(pr, dict) and isinstance(pr.get("name"), str) and isinstance(pr.get("options"), dict):
                 tgt = [n for n in hooks if n.lower() == pr["name"].lower()]
-                refused = any(l[0] == "rep" and l[3] == "error" for l in s.lines)
+                # refused (an error reply in this step) or unknowable (a cast message is never answered: thorough seed 0 had a
+                # cast `set` with a bogus key that was taken for applied)
+                refused = any(l[0] == "rep" and l[3] == "error" for l in s.lines) or op[1].get("msg_type") == "cast"
                 for k_, v_ in pr["options"].items():
                     items = ([(k_.split(".")[-1], v_)] if k_.startswith("hooks.") else
                              list(v_.items()) if k_ == "hooks" and isinstance(v_, dict) else [])
